@@ -14,8 +14,9 @@ emitted (Model.v `site`); C12/Bridge.v proves `forallb site_ok sites = true` aga
   bound_whole           the delivered list is bound by a plain assignment to a name or attribute and
                         that name/attribute is never passed to an order-destroying operation
                         (set, sorted, reversed, frozenset, .sort(), .reverse(), shuffle) in the class
-  task_resolved         F's definition was found (nested def, module-level def, or a method of a
-                        class of the same module; imported sktime functions are followed)
+  task_resolved         F's definition was found (nested def, module-level def, a method of that
+                        name of a class of the same module or - if there is none - of a class the
+                        module imports from sktime; imported sktime functions are followed)
   no_shared_rng_arg     no generator object of the enclosing function (a name bound to
                         check_random_state(..) / np.random.RandomState(..) / default_rng(..)) is
                         passed to the task or captured by a nested task function
@@ -26,6 +27,10 @@ emitted (Model.v `site`); C12/Bridge.v proves `forallb site_ok sites = true` aga
   task_no_shared_write  F never assigns `self.<attr>` and has no global / nonlocal statement
   draws_before_dispatch every use of a generator name of the enclosing function lies in a statement
                         before the one holding the Parallel call
+  njobs_none_ok         nowhere in the file is `n_jobs` / `self.n_jobs` used as a VALUE other than
+                        handed on (keyword / argument of a call such as Parallel(n_jobs=..) or
+                        check_n_jobs(..), right-hand side of an assignment): no `self.n_jobs > 1`
+                        style comparison or arithmetic that fails for n_jobs=None
 
 Limits (stated in TRUSTED): the facts are about F's own body, not about what F calls; `random_state`
 is assumed to hold an int seed.
@@ -42,6 +47,8 @@ FILES = [
     "sktime/series_as_features/base/estimators/interval_based/_tsf.py",
     "sktime/classification/interval_based/_tsf.py",
     "sktime/classification/dictionary_based/_boss.py",
+    "sktime/classification/dictionary_based/_cboss.py",
+    "sktime/classification/dictionary_based/_tde.py",
     "sktime/transformations/panel/dictionary_based/_sfa.py",
     "sktime/transformations/panel/summarize/_extract.py",
     "sktime/transformations/series/outlier_detection.py",
@@ -194,15 +201,48 @@ def _resolve_task(F, mod, enclosing, repo, depth=0):
                             if r:
                                 return r
         return []
-    if isinstance(F, ast.Attribute) and isinstance(F.value, ast.Name):
-        found = []
-        for c in mod.body:
-            if isinstance(c, ast.ClassDef):
-                for n in c.body:
-                    if isinstance(n, ast.FunctionDef) and n.name == F.attr:
-                        found.append(n)
+    if isinstance(F, ast.Attribute):
+        # <any receiver>.<method>: every method of that name in a class of this module; if there
+        # is none, in the classes the module imports from sktime (package __init__ followed once)
+        found = _methods_named(mod, F.attr)
+        if not found:
+            for n in mod.body:
+                if isinstance(n, ast.ImportFrom) and n.module and n.module.startswith("sktime") \
+                        and not n.level:
+                    base = os.path.join(repo, *n.module.split("."))
+                    for m2, path2 in _load_module(base):
+                        wanted = {a.name for a in n.names}
+                        found += _methods_named(m2, F.attr, wanted)
+                        if os.path.basename(path2) == "__init__.py":
+                            # re-exports: from ._boss import IndividualBOSS
+                            for k in m2.body:
+                                if isinstance(k, ast.ImportFrom) and k.module and (
+                                        k.level == 1 or k.module.startswith("sktime")) \
+                                        and wanted & {a.name for a in k.names}:
+                                    b3 = (os.path.join(os.path.dirname(path2), *k.module.split("."))
+                                          if k.level == 1 else os.path.join(repo, *k.module.split(".")))
+                                    for m3, _ in _load_module(b3):
+                                        found += _methods_named(m3, F.attr, wanted)
         return found
     return []
+
+
+def _load_module(base):
+    for cand in (base + ".py", os.path.join(base, "__init__.py")):
+        if os.path.exists(cand):
+            with open(cand) as f:
+                return [(ast.parse(f.read()), cand)]
+    return []
+
+
+def _methods_named(mod, name, classes=None):
+    found = []
+    for c in mod.body:
+        if isinstance(c, ast.ClassDef) and (classes is None or c.name in classes):
+            for n in c.body:
+                if isinstance(n, ast.FunctionDef) and n.name == name:
+                    found.append(n)
+    return found
 
 
 def _free_names(fn):
@@ -232,12 +272,31 @@ def _order_destroyed(scope, is_target):
     return False
 
 
+def _njobs_none_ok(mod, par):
+    """every Load of `n_jobs` / `<obj>.n_jobs` is only handed on (see module docstring)"""
+    for n in ast.walk(mod):
+        is_nj = (isinstance(n, ast.Name) and n.id == "n_jobs") or (
+            isinstance(n, ast.Attribute) and n.attr == "n_jobs")
+        if not is_nj or not isinstance(n.ctx, ast.Load):
+            continue
+        p = par.get(n)
+        if isinstance(p, ast.keyword):
+            continue
+        if isinstance(p, ast.Call) and n in p.args:
+            continue
+        if isinstance(p, ast.Assign) and p.value is n:
+            continue
+        return False
+    return True
+
+
 def _sites_of(rel, repo):
     path = os.path.join(repo, rel)
     with open(path) as f:
         src = f.read()
     mod = ast.parse(src)
     par = _parents(mod)
+    nj_ok = _njobs_none_ok(mod, par)
     uses = [n for n in ast.walk(mod) if isinstance(n, ast.Name) and n.id == "Parallel"]
     attr_uses = [n for n in ast.walk(mod) if isinstance(n, ast.Attribute) and n.attr == "Parallel"]
     if attr_uses:
@@ -331,6 +390,7 @@ def _sites_of(rel, repo):
                 if not (s.lineno < stmt.lineno):
                     before = False
         facts["draws_before_dispatch"] = before
+        facts["njobs_none_ok"] = nj_ok
         label = "%s:%s%s -> %s" % (rel.replace("sktime/", ""), (cls.name + ".") if cls else "",
                                    ".".join(e.name for e in enclosing), _u(F))
         key = "%s:%s:%s" % (rel.replace("sktime/", "", 1), enclosing[-1].name,
@@ -353,7 +413,7 @@ def _sites_of(rel, repo):
 
 FIELDS = ["gen_form", "kw_ok", "bound_whole", "task_resolved", "no_shared_rng_arg",
           "task_no_global_rng", "task_rng_from_seed", "task_no_shared_write",
-          "draws_before_dispatch"]
+          "draws_before_dispatch", "njobs_none_ok"]
 
 
 def extract(repo):
